@@ -86,6 +86,7 @@ type Run struct {
 	Trace             []Ev // up to the end of the history (before wind-down)
 	TraceAll          []Ev // including wind-down
 	Leak              string
+	LeakBeforeCancel  string // goroutines of ended streams alive while only their callers' contexts are
 	Classes           map[string]bool
 	FinishProblems    []string
 }
@@ -624,6 +625,24 @@ func Exec(h History) *Run {
 		r.HealthyInputAtEnd = true
 	}
 	r.Trace = w.Trace()
+	// Every stream has ended and every Connect call has returned, but the
+	// contexts of the attempts that ended by themselves are still alive (the
+	// broker's caller decides when to cancel them): nothing of an ended shell
+	// may depend on that cancellation to stop.
+	if !harnessBroken {
+		allDone := true
+		for _, ai := range r.Atts {
+			allDone = allDone && ai.A.Done()
+		}
+		if allDone {
+			for _, ai := range r.Atts {
+				if ai.A.Rd != nil {
+					ai.A.Rd.Close() // "once its transport streams are closed"
+				}
+			}
+			r.LeakBeforeCancel = w.LeakedWhileRunning()
+		}
+	}
 	r.FinishProblems = w.Finish()
 	r.TraceAll = w.Trace()
 	if len(r.FinishProblems) == 0 {
